@@ -134,6 +134,19 @@ int main(int argc, char **argv) {
             emit("pwhash_str_needs_rehash", c, 0, crypto_pwhash_str_needs_rehash(s, 1 + c % 2, mem) + 10 * crypto_pwhash_str_needs_rehash(s, 2 + c % 2, mem), OUT, 0); }
     }
     { unsigned char sd[32]; memset(sd, 0x42, 32); for (size_t i = 0; i < nlens(); i++) { randombytes_buf_deterministic(OUT, LENS_ALL[i], sd); emit("buf_deterministic", LENS_ALL[i], 0, 0, OUT, LENS_ALL[i]); } }
+    /* mass relational runs for the field-arithmetic backends (sandy2x vs ref10 ladders, 51-bit vs 25.5-bit limbs): conditions that
+     * depend on every bit of both operands (an unreduced limb, a dropped carry) occur for about one pair in 10^5..10^6; the outputs of
+     * every block of 2048 random pairs are folded into one digest per block, which must be identical in every configuration */
+    { vrng MR; vrng_seed(&MR, 0x51a5e + (uint64_t) atoll(argv[1]), 9); unsigned char kk[32], uu[32], qq[32], acc[32];
+      size_t nblk = quick ? 256 : 4096;
+      for (size_t blk = 0; blk < nblk; blk++) { memset(acc, 0, 32); int rets = 0;
+          for (int j = 0; j < 2048; j++) { vrng_bytes(&MR, kk, 32); vrng_bytes(&MR, uu, 32); rets += crypto_scalarmult(qq, kk, uu) != 0;
+              for (int b = 0; b < 32; b++) acc[b] = (unsigned char) ((acc[b] << 1 | acc[b] >> 7) ^ qq[(b + j) & 31]); }
+          emit("x25519_mass", blk, 0, rets, acc, 32); }
+      for (size_t blk = 0; blk < nblk / 8; blk++) { memset(acc, 0, 32); int rets = 0;
+          for (int j = 0; j < 2048; j++) { vrng_bytes(&MR, kk, 32); rets += crypto_scalarmult_ed25519_base_noclamp(qq, kk) != 0;
+              for (int b = 0; b < 32; b++) acc[b] = (unsigned char) ((acc[b] << 1 | acc[b] >> 7) ^ qq[(b + j) & 31]); }
+          emit("ed25519_base_mass", blk, 0, rets, acc, 32); } }
     v_close();
     return 0;
 }
